@@ -291,6 +291,78 @@ func init() {
 					k = 36
 				}
 				js = append(js, JobSpec{Group: "pipe", Harness: "VLife", Mode: "bmc", Params: map[string]int{"stage": 13, "cap": c, "n": 1, "generator": 1}, K: k})
+				js = append(js, JobSpec{Group: "pipe", Harness: "VLife", Mode: "bmc", Params: map[string]int{"stage": 14, "cap": c, "n": 1, "generator": 1, "clock": 1}, K: k})
+				js = append(js, JobSpec{Group: "pipe", Harness: "VLife", Mode: "bmc", Params: map[string]int{"stage": 15, "cap": c, "n": 1, "generator": 1, "clock": 1}, K: k})
+			}
+			return js
+		},
+	})
+	reg(&PropSpec{
+		ID: "C08", Level: "model_checking",
+		Explanation: bmcText + "C08: pipe.New (the pump goroutine, newq/enq/deq/head/emit): sender of n symbolic values (optionally closing the send side), receiver present or absent, cancel at any step; queue nodes and the per-receive cells live in bounded arenas (symbolic slot indices). Checked: FIFO / exactly-once (j-th received value is x_j), nothing invented, the sender always gets all n sends through while the context is live (also with no receiver), after cancel every send completed before the cancel is delivered and the receive side closes, closing the send side is a clean end of stream (no panic). Bounds: capacity 0..2, n 1..3 (4 thorough).",
+		Assumptions: append([]string{"sync.Pool is modelled as always returning a fresh node (reuse of a recycled node is outside the claim)", "sends attempted after cancel are outside the statement (they may fail: the pump closes the send side)"}, bmcAssumptions...),
+		Jobs: func(tier string) []JobSpec {
+			ns := []int{1, 2}
+			if tier == "thorough" {
+				ns = []int{1, 2, 3}
+			}
+			var js []JobSpec
+			for _, c := range []int{0, 1, 2} {
+				for _, n := range ns {
+					for _, mode := range []int{0, 1} {
+						for _, rc := range []int{0, 1} {
+							if tier != "thorough" && c >= 1 && n >= 2 && mode == 0 && rc == 1 {
+								continue // minutes each: thorough tier
+							}
+							js = append(js, JobSpec{Group: "pipe", Harness: "VUnbound", Mode: "bmc", Params: map[string]int{"cap": c, "n": n, "mode": mode, "recv": rc}, K: 40})
+						}
+					}
+				}
+			}
+			// one configuration under the lax virtual clock (timers, if any, may fire at any time)
+			js = append(js, JobSpec{Group: "pipe", Harness: "VUnbound", Mode: "bmc", Params: map[string]int{"cap": 0, "n": 2, "mode": 0, "recv": 1, "clock": 1}, K: 40})
+			return js
+		},
+	})
+	reg(&PropSpec{
+		ID: "C11", Level: "model_checking",
+		Explanation: bmcText + "C11: Unfold (j-th value == F^j(seed), F uninterpreted, consumer may stop, cancel at any step) and Emit (j-th value == F(i_j) for the j-th non-failing index under Try, errors in order, index sequence 0,1,2,..; under the LAX virtual clock - tick of any positive size at any step, so goroutines and timers may be arbitrarily late - F is applied at most once per elapsed frequency tick and the j-th value is never received before (j+1) ticks; under the URGENT clock an always-ready consumer receives the j-th value at exactly (j+1) ticks); after cancel both channels close and the goroutine exits. Generators: all runs of up to K steps (Unfold 24 / 36 thorough; Emit under the lax clock 14 / 24 thorough, i.e. the first two to four values), capacities 0..2, frequency 5 (and 1 thorough).",
+		Assumptions: append([]string{"time.Sleep / time.After never fire early (virtual clock); real-time behaviour of a loaded machine is outside the claim", "runs longer than K steps are outside the claim (generators never terminate)"}, bmcAssumptions...),
+		Jobs: func(tier string) []JobSpec {
+			k, ke := 24, 14 // Emit under the lax clock is the expensive query
+			freqs := []int{5}
+			if tier == "thorough" {
+				k, ke = 36, 24
+				freqs = []int{1, 5}
+			}
+			var js []JobSpec
+			for _, c := range []int{0, 1, 2} {
+				js = append(js, JobSpec{Group: "pipe", Harness: "VUnfold", Mode: "bmc", Params: map[string]int{"cap": c, "generator": 1}, K: k})
+				for _, fq := range freqs {
+					for _, try := range []int{0, 1} {
+						js = append(js, JobSpec{Group: "pipe", Harness: "VEmit", Mode: "bmc", Params: map[string]int{"cap": c, "freq": fq, "try": try, "generator": 1, "clock": 1}, K: ke})
+					}
+					js = append(js, JobSpec{Group: "pipe", Harness: "VEmitKeepsUp", Mode: "bmc", Params: map[string]int{"cap": c, "freq": fq, "generator": 1, "clock": 2}, K: k})
+				}
+			}
+			return js
+		},
+	})
+	reg(&PropSpec{
+		ID: "C13", Level: "model_checking",
+		Explanation: bmcText + "C13: Throttling's pacer and data goroutines with the virtual clock. LAX clock (ticks of any size at any step; producer, consumer, goroutines and timers arbitrarily late, so idle periods followed by bursts are included): every element delivered once, in order, output closes, and the delivery instants satisfy d[i+B] - d[i] >= interval for B = 2*ops+1+c (no window of length interval sees more than B deliveries). URGENT clock, pre-filled input, always-ready consumer: floor(i/ops)*interval <= d[i] <= floor(i/ops)*interval + interval. Bounds: ops=1, c=0, n=4 (quick); ops in {1,2}, c in {0,1} where the query finishes (thorough).",
+		Assumptions: append([]string{"time.After never fires early (virtual clock); real-time behaviour of a loaded machine is outside the claim"}, bmcAssumptions...),
+		Jobs: func(tier string) []JobSpec {
+			js := []JobSpec{
+				{Group: "pipe", Harness: "VThrottleRate", Mode: "bmc", Params: map[string]int{"ops": 1, "cap": 0, "n": 4, "interval": 10, "clock": 1}, K: 40},
+				{Group: "pipe", Harness: "VThrottlePace", Mode: "bmc", Params: map[string]int{"ops": 1, "n": 3, "interval": 10, "clock": 2}, K: 40},
+			}
+			if tier == "thorough" {
+				js = append(js,
+					JobSpec{Group: "pipe", Harness: "VThrottleRate", Mode: "bmc", Params: map[string]int{"ops": 1, "cap": 1, "n": 5, "interval": 10, "clock": 1}, K: 48},
+					JobSpec{Group: "pipe", Harness: "VThrottleRate", Mode: "bmc", Params: map[string]int{"ops": 2, "cap": 0, "n": 6, "interval": 10, "clock": 1}, K: 60},
+					JobSpec{Group: "pipe", Harness: "VThrottlePace", Mode: "bmc", Params: map[string]int{"ops": 2, "n": 4, "interval": 10, "clock": 2}, K: 48},
+				)
 			}
 			return js
 		},
